@@ -1,6 +1,7 @@
 import StorageModel.Query.BoltProofs
 import StorageModel.Query.Resolve
 import StorageModel.Query.TreeQueries
+import StorageModel.Query.ObjectzTime
 import StorageModel.Generated.PagingFacts
 /-
   C19 — In-memory object store answers queries like the bolt-backed store.
@@ -387,6 +388,102 @@ example :
     scanIds (sortScanT expectedPaging preFixCmp { pred := fun _ => true } ⟨none, some 2⟩ (some nanRows.reverse)) = ([[98], [99]], 3) := by
   decide
 
+/-! ### datetime fields are `time.Time` values (round 9)
+
+An object's datetime symbol returns a `*time.Time`: the instant plus a `*Location` and possibly a monotonic clock
+reading (`Query/ObjectzTime.lean`).  The bolt store keeps the instant.  The theorems above speak about objects given
+by their field values; the two below extend them to objects holding arbitrary representations of those instants. -/
+
+/-- **the representation of a datetime value is invisible to a query**: over objects whose datetime fields are
+    `time.Time` values in any location, with or without monotonic reading, `QueryEntitiesC` returns exactly (objects,
+    order, count, error) what it returns over the bare field values — every filter node, sort list, skip, limit,
+    iteration order.  `MonoConsistent`: two monotonic readings order like their instants. -/
+theorem objectz_time_representation_irrelevant (symbols : List (String × SymType)) (objs : List TObj)
+    (ev : Symbols → Bool) (sort : List SortField) (paging : Paging) (hm : MonoConsistent objs) :
+    (objQueryTP Generated.objectzPaging symbols (some objs) ev sort paging).mapRows (·.row) =
+      objQueryP Generated.objectzPaging ⟨symbols, some (objs.map (·.row))⟩ ev sort paging :=
+  objQueryTP_map_row _ symbols objs ev sort paging hm
+
+/-- **objectz_eq_bolt over `time.Time`-holding objects**: `objectz_eq_bolt_any_filter` with the object store holding, for
+    every datetime field, any `time.Time` value denoting the instant the bolt store holds. -/
+theorem objectz_eq_bolt_time_values (symbols : List (String × SymType)) (bst : BoltStore) (objs : List TObj) (rows : List Row)
+    (ev : Symbols → Bool) (N : List String) (sort : List SortField) (paging : Paging) (c : Cmp Row)
+    (hm : MonoConsistent objs)
+    (hb : bst.bucket = some rows) (hperm : (objs.map (·.row)).Perm rows)
+    (hroot : ∀ r, bst.childSkip r = false)
+    (hord : BucketOrdered rows) (hid : symbols.lookup "id" = some .string)
+    (hschema : ∀ f ∈ sort ++ [⟨"id", true⟩], bst.schema.lookup f.name = (ObjStore.schema ⟨symbols, none⟩).lookup f.name)
+    (hc : newRowComparator (ObjStore.schema ⟨symbols, none⟩) sort = .ok c)
+    (hloc : TypedLocal symbols N ev) (hw : ∀ o ∈ objs, ∀ n ∈ N, WellTypedAt symbols o.row n)
+    (hq : paging.InRange) (hlen : (rows.length : Int) ≤ maxI64) :
+    (objQueryTP Generated.objectzPaging symbols (some objs) ev sort paging).mapRows (·.row) =
+      (match queryIdsCP Generated.boltzPaging bst ev sort paging with
+       | .ok r => .ok r
+       | .error e => .err e) := by
+  rw [objectz_time_representation_irrelevant symbols objs ev sort paging hm]
+  exact objectz_eq_bolt_any_filter ⟨symbols, some (objs.map (·.row))⟩ bst (objs.map (·.row)) rows ev N sort paging c rfl hb hperm
+    hroot hord hid hschema hc hloc
+    (fun r hr n hn => by
+      obtain ⟨o, ho, rfl⟩ := List.mem_map.1 hr
+      exact hw o ho n hn) hq hlen
+
+def timeSyms : List (String × SymType) := [("id", .string), ("t", .datetime)]
+def tRow (id : UInt8) (ns : Int) : Row := ⟨[id], [("t", .time ns)]⟩
+/-- a: 12:00 UTC, b: the same instant in a FixedZone, c: the same instant as `time.Now()` gave it (Local + monotonic
+    reading), d: one hour later (also with a reading) -/
+def timeObjs : List TObj :=
+  [⟨tRow 97 1000, fun _ => {}⟩, ⟨tRow 98 1000, fun _ => { loc := 1 }⟩,
+   ⟨tRow 99 1000, fun _ => { loc := 4, mono := some 50 }⟩, ⟨tRow 100 4600, fun _ => { loc := 4, mono := some 3650 }⟩]
+
+def tIds : ObjOutcome (List TObj × Int) → Option (List Bytes × Int)
+  | .ok r => some (r.1.map (·.row.id), r.2)
+  | _ => none
+
+/-- non-vacuity of `MonoConsistent` on a collection mixing all representations -/
+example : MonoConsistent timeObjs := by
+  intro a ha b hb n t u hta hub x y hx hy
+  simp only [timeObjs, List.mem_cons, List.mem_nil_iff, or_false] at ha hb
+  by_cases hn : n = "t"
+  · subst hn
+    rcases ha with rfl | rfl | rfl | rfl <;> rcases hb with rfl | rfl | rfl | rfl <;>
+      simp [objTime, tRow, evalSym, Row.get, fieldToDatetime] at hta hub <;>
+      subst hta <;> subst hub <;> simp at hx hy <;> subst hx <;> subst hy <;> decide
+  · have hnone : ∀ o ∈ timeObjs, objTime n o = none := by
+      intro o ho
+      simp only [timeObjs, List.mem_cons, List.mem_nil_iff, or_false] at ho
+      by_cases hid : n = "id"
+      · subst hid
+        rcases ho with rfl | rfl | rfl | rfl <;> simp [objTime, evalSym, fieldToDatetime]
+      · have hb : ("t" == n) = false := by simpa using fun h => hn h.symm
+        have hb' : (n == "t") = false := by simpa using hn
+        rcases ho with rfl | rfl | rfl | rfl <;>
+          simp [objTime, tRow, evalSym, hid, Row.get, List.lookup, hb', fieldToDatetime]
+    have h1 := hnone a (by simp only [timeObjs, List.mem_cons, List.mem_nil_iff, or_false]; exact ha)
+    rw [h1] at hta; cases hta
+
+/-- `sort by t` and `sort by t desc limit 2`: the three representations of one instant tie and fall through to the id,
+    whatever the iteration order (list model and llrb port) -/
+example :
+    tIds (objQueryTP expectedPaging timeSyms (some timeObjs.reverse) (fun _ => true) [⟨"t", true⟩] ⟨none, none⟩)
+      = some ([[97], [98], [99], [100]], 4) ∧
+    tIds (objQueryTPT expectedPaging timeSyms (some timeObjs.reverse) (fun _ => true) [⟨"t", true⟩] ⟨none, none⟩)
+      = some ([[97], [98], [99], [100]], 4) ∧
+    tIds (objQueryTPT expectedPaging timeSyms (some timeObjs.reverse) (fun _ => true) [⟨"t", false⟩] ⟨none, some 2⟩)
+      = some ([[100], [97]], 4) := by decide
+
+/-- **what deciding the tie with Go's `==` on the struct would do** (`*s1 != *s2` and a single `Before`): equal instants
+    in different representations compare "greater" both ways, the id tie-break is never consulted, and the answer depends
+    on the iteration order (llrb port): `sort by t` over a, b, c, d is right when the iterator yields them in id order and
+    c, b, a, d when it yields them backwards; with `limit 1` a different object is on the page. -/
+example :
+    objCmpTimeValStructEq ⟨1000, none, 0⟩ ⟨1000, none, 1⟩ = .gt ∧ objCmpTimeValStructEq ⟨1000, none, 1⟩ ⟨1000, none, 0⟩ = .gt ∧
+    tIds (objQueryTPW objCmpTimeValStructEq (sortScanT expectedPaging) timeSyms (some timeObjs) (fun _ => true)
+      [⟨"t", true⟩] ⟨none, none⟩) = some ([[97], [98], [99], [100]], 4) ∧
+    tIds (objQueryTPW objCmpTimeValStructEq (sortScanT expectedPaging) timeSyms (some timeObjs.reverse) (fun _ => true)
+      [⟨"t", true⟩] ⟨none, none⟩) = some ([[99], [98], [97], [100]], 4) ∧
+    tIds (objQueryTPW objCmpTimeValStructEq (sortScanT expectedPaging) timeSyms (some timeObjs.reverse) (fun _ => true)
+      [⟨"t", true⟩] ⟨none, some 1⟩) = some ([[99]], 4) := by decide
+
 end StorageModel.Properties.C19
 
 #print axioms StorageModel.Properties.C19.objectz_paging_facts_expected
@@ -401,3 +498,5 @@ end StorageModel.Properties.C19
 #print axioms StorageModel.Properties.C19.boltz_float_comparator_facts_expected
 #print axioms StorageModel.Properties.C19.set_function_on_non_set_rejected
 #print axioms StorageModel.Properties.C19.objectz_nil_iterator_empty
+#print axioms StorageModel.Properties.C19.objectz_time_representation_irrelevant
+#print axioms StorageModel.Properties.C19.objectz_eq_bolt_time_values
